@@ -38,6 +38,7 @@ type l2Profile struct {
 	Hooks    int // % of deposits carrying a payload
 	BadRcpt  int // % of deposits with a malformed / blocked recipient
 	Plans    bool
+	Reimport int // % of blocks preceded by a restart of the chain from its exported genesis
 	ClientID string // when set, the genesis bridge info is present and bound to this L1 light client
 	ForceBridgeInfo bool
 	NodeMinGas      string   // node-local min gas prices of the world's own node
@@ -91,6 +92,9 @@ type l2World struct {
 	noWrap    bool
 	ownAll    bool
 	replicas  []*l2Replica
+	recent    [][]byte // recently broadcast transactions (client traffic re-uses them)
+	lenient   bool     // see l1World
+	sidePct   int      // % of schedule points with client traffic on discarded branches
 	feeBook   []feeEntry // declared fee per tx of the block being executed (C20); nil = fees are zero
 	genesis   *node.L2Genesis
 	pendingHost []node.HostSetUpdate
@@ -122,6 +126,10 @@ func (w *l2World) fail(m mismatch) *core.Violation {
 	}
 	if w.own(m.Owners) {
 		return w.r.Viol(m.Inv, m.Key, "%s", m.Msg)
+	}
+	if w.lenient {
+		w.r.Logf("(not judged here, owned by %v) %s: %s", m.Owners, m.Inv, m.Msg)
+		return nil
 	}
 	panic(core.Abort{Reason: "foreign:" + m.Inv})
 }
@@ -249,6 +257,7 @@ func newL2WorldOpt(r *core.Run, p *l2Profile, fixedBridge uint64, bases []string
 	}
 	w.hist[1] = w.eng.Powers()
 	w.avoidKnown = r.Chance(4, 5)
+	w.sidePct = []int{0, 10, 30, 60}[r.Intn(4)]
 	r.Logf("L2 world: users=%d executors=%d bases=%d genesisVals=%d maxVals=%d histEntries=%d hookMaxGas=%d bridgeInfo=%v avoidKnown=%v", len(w.users), nex, nb, ng,
 		gen.Params.MaxValidators, gen.Params.HistoricalEntries, hookGas, gen.BridgeInfo != nil, w.avoidKnown)
 	return w
@@ -738,6 +747,11 @@ type l2Pending struct {
 func (w *l2World) runBlock() *core.Violation {
 	r := w.r
 	w.planClass = ""
+	if w.p.Reimport > 0 && r.Chance(w.p.Reimport, 100) && !w.planPending() {
+		if v := w.reimport(); v != nil {
+			return v
+		}
+	}
 	var T time.Time
 	switch r.Weighted([]int{6, 1, 2, 1}) {
 	case 0:
@@ -815,6 +829,7 @@ func (w *l2World) execBlock(bc blockCtx, txs []l2Pending, crash string) *core.Vi
 	if crash == "before-finalize" {
 		w.restart(crash)
 	}
+	w.sideTraffic("before-finalize", raw)
 	w.n.Fault.ResetLog()
 	host := w.pendingHost
 	w.pendingHost = nil
@@ -823,7 +838,7 @@ func (w *l2World) execBlock(bc blockCtx, txs []l2Pending, crash string) *core.Vi
 	if crash == "aborted-optimistic-execution" {
 		r.Fault("aborted-optimistic-execution")
 		r.Logf("block %d is first executed optimistically, that execution is aborted and discarded, then it is executed again", bc.Height)
-		res, err = w.n.FinalizeAfterAbortedOE(T, raw, host)
+		res, err = w.n.FinalizeAfterAbortedOE(T, raw, host, w.altProposal(raw))
 	} else {
 		res, err = w.n.Finalize(T, raw, host)
 	}
@@ -851,9 +866,18 @@ func (w *l2World) execBlock(bc blockCtx, txs []l2Pending, crash string) *core.Vi
 		}
 		res = res2
 	}
+	w.sideTraffic("before-commit", raw)
 	w.n.Commit()
 	if crash == "after-commit" {
 		w.restart(crash)
+	}
+	w.sideTraffic("after-commit", raw)
+	for _, t := range raw {
+		if len(w.recent) < 24 {
+			w.recent = append(w.recent, t)
+		} else {
+			w.recent[r.Intn(24)] = t
+		}
 	}
 	if len(w.replicas) > 0 {
 		if v := w.runReplicas(bc, raw, host, res); v != nil {
@@ -1233,4 +1257,70 @@ func (w *l2World) applyPlanToModel(p *node.PlanReg) {
 	op, _ := sdk.ValAddressFromBech32(opStr)
 	w.m.Vals[opStr] = &mVal{Operator: opStr, OpBytes: op, PubKey: node.ValKey(w.planKey[p.Height]).PubKey().Bytes(), Power: 1, Moniker: p.Moniker}
 	w.m.Params.BridgeExecutors = append([]string{}, p.NextExecutors...)
+}
+
+// sideTraffic is what a serving node meets between the consensus calls: clients
+// simulate transactions for gas estimation and broadcast them into the mempool.  Both
+// execute real handler code on a branch of the last committed state that is thrown
+// away, so nothing of it may be visible in any later result (only keeper memory could
+// carry it over).  Transactions are taken from this block and from recent blocks.
+func (w *l2World) sideTraffic(point string, cur [][]byte) {
+	if w.sidePct == 0 || !w.r.Chance(w.sidePct, 100) {
+		return
+	}
+	for k := 1 + w.r.Intn(3); k > 0; k-- {
+		var t []byte
+		switch {
+		case len(cur) > 0 && (len(w.recent) == 0 || w.r.Chance(1, 2)):
+			t = cur[w.r.Intn(len(cur))]
+		case len(w.recent) > 0:
+			t = w.recent[w.r.Intn(len(w.recent))]
+		default:
+			return
+		}
+		if w.r.Chance(1, 4) {
+			w.n.SideCheckTx(t)
+			w.r.Fault("discarded-execution.checktx." + point)
+		} else {
+			w.n.SideSimulate(t)
+			w.r.Fault("discarded-execution.simulate." + point)
+		}
+	}
+}
+
+// altProposal chooses the transaction list of the aborted proposal: the same list, or
+// a different proposal for the same height (some transactions missing, other recent
+// ones included, another order).
+func (w *l2World) altProposal(raw [][]byte) [][]byte {
+	if w.r.Chance(1, 2) {
+		return nil
+	}
+	alt := [][]byte{}
+	for _, t := range raw {
+		if !w.r.Chance(1, 4) {
+			alt = append(alt, t)
+		}
+	}
+	for k := w.r.Intn(3); k > 0 && len(w.recent) > 0; k-- {
+		alt = append(alt, w.recent[w.r.Intn(len(w.recent))])
+	}
+	for i := len(alt) - 1; i > 0; i-- {
+		if w.r.Chance(1, 3) {
+			j := w.r.Intn(i + 1)
+			alt[i], alt[j] = alt[j], alt[i]
+		}
+	}
+	w.r.Fault("aborted-optimistic-execution.different-proposal")
+	return alt
+}
+
+// planPending: an executor change plan is registered for a height not yet executed (the
+// restart from exported genesis skips one height without running its end blocker).
+func (w *l2World) planPending() bool {
+	for _, p := range w.plans {
+		if int64(p.Height) > w.n.Height() {
+			return true
+		}
+	}
+	return false
 }
